@@ -80,7 +80,7 @@ partial def parseItem (tok : Array String) (pos : Nat) : Option (Item × Nat) :=
 
 open GoluaVerif.Model.CallCtx in
 def exitStr : Exit → String
-  | .done => "done" | .error => "error" | .killed => "killed" | .crashed => "crashed"
+  | .done => "done" | .error => "error" | .killed _ => "killed" | .crashed => "crashed"
 
 open GoluaVerif.Model.CallCtx in
 def treeLine (line : String) : String :=
